@@ -1,5 +1,6 @@
 import St4sd.Model.ArgSubst
 import St4sd.Lemmas.C10Spell
+import St4sd.Lemmas.C10Order
 /-!
 # C10 — Command-line reference substitution is exact
 
@@ -959,5 +960,61 @@ theorem outputValue_length (c : S) : ∃ n, (outputValue c).length + n = c.lengt
   · have h : c.drop (outputValue c).length = (outputValue c ++ List.replicate n '\n').drop (outputValue c).length := by
       rw [← hn]
     rw [h, List.drop_left]
+
+/-! ## `:loopref` / `:loopoutput`: the loop instances in iteration order, for every number of instances
+
+The instances of a placeholder reach `looped_reference_to_paths` as a list made from a set (`represents`): any order.
+`orderInstances` is the model of the `sorted(..., key=int(<iteration>))` there. -/
+
+section LoopOrder
+open St4sd.C10.Order
+
+/-- whatever the order of `represents`, the result lists the same instances, each once … -/
+theorem loop_instances_perm {α : Type} (l : List (S × α)) : (orderInstances l).Perm l := orderInstances_perm l
+
+/-- … in non-decreasing order of the iteration NUMBER (never of the id text) -/
+theorem loop_instances_sorted {α : Type} (l : List (S × α)) :
+    (orderInstances l).Pairwise (fun a b => iterOfId a.1 ≤ iterOfId b.1) := orderInstances_sorted l
+
+/-- **loop_instances_in_iteration_order.**  For EVERY number `n` of loop instances (`n ≥ 11`, where the decimal texts
+`10, 11, …` sort before `2`, and `n ≥ 101` alike) and every order `l` in which the instances `0 … n-1` of a looped
+component arrive, they are listed as `0, 1, 2, …, n-1`, each with its own payload (working directory / file contents). -/
+theorem loop_instances_in_iteration_order {α : Type} (s : Nat) (name : S) (f : Nat → α) (n : Nat) (l : List (S × α))
+    (hp : l.Perm ((List.range n).map fun i => (instId s i name, f i))) :
+    orderInstances l = (List.range n).map fun i => (instId s i name, f i) :=
+  orderInstances_of_perm s name f n l hp
+
+/-- the order of `represents` (a set) is not observable -/
+theorem loop_instances_order_independent {α : Type} (s : Nat) (name : S) (f : Nat → α) (n : Nat) (l l' : List (S × α))
+    (hp : l.Perm ((List.range n).map fun i => (instId s i name, f i))) (hpp : l'.Perm l) :
+    orderInstances l' = orderInstances l := by
+  rw [loop_instances_in_iteration_order s name f n l hp, loop_instances_in_iteration_order s name f n l' (hpp.trans hp)]
+
+/-- **loopref_value_in_iteration_order.**  The value of a `:loopref` reference to a looped component with `n` instances
+is the blank-joined list of the paths of instance `0`, instance `1`, …, instance `n-1` — for every `n`. -/
+theorem loopref_value_in_iteration_order (s : Nat) (name : S) (loc : Nat → S) (file : Option S) (n : Nat)
+    (l : List (S × S)) (hp : l.Perm ((List.range n).map fun i => (instId s i name, loc i))) :
+    (loopRefSource l file).value? = some (join [' '] ((List.range n).map fun i => loopRefPath (loc i) file)) := by
+  simp [loopRefSource, Source.value?, loop_instances_in_iteration_order s name loc n l hp, List.map_map,
+    Function.comp_def]
+
+/-- **loopoutput_value_in_iteration_order.**  The value of a `:loopoutput` reference (all instance files present) is the
+blank-joined list of the contents values of instance `0`, `1`, …, `n-1` — for every `n`. -/
+theorem loopoutput_value_in_iteration_order (s : Nat) (name : S) (c : Nat → S) (n : Nat)
+    (l : List (S × Option S)) (hp : l.Perm ((List.range n).map fun i => (instId s i name, some (c i)))) :
+    (loopOutputSource l).value? = some (join [' '] ((List.range n).map fun i => loopInstanceValue (c i))) := by
+  have h := loopoutput_value ((List.range n).map c)
+  simp only [List.map_map, Function.comp_def] at h
+  simp only [loopOutputSource, loop_instances_in_iteration_order s name (fun i => some (c i)) n l hp, List.map_map,
+    Function.comp_def]
+  exact h
+
+/-- 12 instances arriving in the order of their id TEXTS (`0, 1, 10, 11, 2, …`): listed `0 … 11` -/
+example : ((orderInstances ([0, 1, 10, 11, 2, 3, 4, 5, 6, 7, 8, 9].map fun i => (instId 0 i "A".toList, i))).map (·.2))
+    = List.range 12 := by decide
+example : ([0, 1, 10, 11, 2, 3, 4, 5, 6, 7, 8, 9].map fun i => (instId 0 i "A".toList, i)).Perm
+    ((List.range 12).map fun i => (instId 0 i "A".toList, i)) := by decide
+
+end LoopOrder
 
 end St4sd.C10
